@@ -23,7 +23,8 @@ RULE = ("Resources with counts in -1..8 (+ a few large), memory strings across B
         "injected fault (exclusive combination, non-positive count, mutated memory/time string); combine_max of 0..4 "
         "operands; update with field keys, extra_args= and free keys in random order; with_defaults / "
         "maybe_with_defaults with and without None; dict/from_dict round trips, from_dict of dicts with unknown keys; "
-        "to_slurm_options. Operand state is observed after every call. non-trivial = every case except the all-default "
+        "to_slurm_options; _maybe_max_resources (NestedPipeFunc) with 0..4 children, some without resources, with and "
+        "without an explicit argument. Operand state is observed after every call. non-trivial = every case except the all-default "
         "constructor and combine_max of < 2 operands; distinct by (kind, canonical JSON of the case)")
 ASSUMPTIONS = [
     "typed domain: counts are Python ints (no bools/floats), memory/time/partition are str or None, "
@@ -102,6 +103,10 @@ def emit_case(c) -> str:
         return f"(CFromDict {_udict(c['d'])})"
     if k == "slurm":
         return f"(CSlurm {_res(c['r'])})"
+    if k == "maybe_max":
+        e = c["e"]
+        el = "ENone" if e is None else f"(ERes {_res(e['res'])})" if "res" in e else f"(EDict {_udict(e['dict'])})"
+        return f"(CMaybeMax {el} {clist([copt(a, _res) for a in c['ch']])})"
     raise ValueError(k)
 
 
@@ -154,6 +159,27 @@ def run_impl(c):
     def build(a):
         return None if a is None else R(**_kwargs(a))
 
+    if k == "maybe_max":
+        import types
+
+        from pipefunc._pipefunc import _maybe_max_resources
+
+        try:
+            e = c["e"]
+            ex = None if e is None else build(e["res"]) if "res" in e else \
+                {a: (dict(map(tuple, b)) if isinstance(b, list) else b) for a, b in e["dict"]}
+            kids = [build(a) for a in c["ch"]]
+        except Exception as err:  # noqa: BLE001
+            return ["bad-case", Err(err)]
+        fs = [types.SimpleNamespace(resources=x) for x in kids]
+        try:
+            x = _maybe_max_resources(ex, fs)
+            res = None if x is None else Ok(obj_obs(x, raw=False))
+            which = ("none" if x is None else "explicit" if x is ex else
+                     "child" if any(x is y for y in kids) else "new")
+        except Exception as err:  # noqa: BLE001
+            res, which = Err(err), "new"
+        return [res, [None if y is None else obj_obs(y) for y in kids], which]
     try:
         if k == "combine":
             ops = [build(a) for a in c["rs"]]
@@ -418,6 +444,10 @@ def generate(rng, tier, mult):
             d.insert(rng.randrange(len(d) + 1), [rng.choice(["wrong_arg", "cpu", "mem", "Cpus", "extra"]), 1])
         cases.append({"kind": "from_dict", "d": d})
         cases.append({"kind": "slurm", "r": gen_valid(rng, rich=True)})
+        q = rng.random()
+        e = None if q < 0.75 else {"res": gen_valid(rng)} if q < 0.9 else {"dict": to_udict(rng, gen_valid(rng))}
+        kids = [o if rng.random() < 0.7 else None for o in gen_operands(rng, rng.choice([0, 1, 2, 2, 3, 4]))]
+        cases.append({"kind": "maybe_max", "e": e, "ch": kids})
     return cases
 
 
@@ -434,6 +464,8 @@ def distribution(c):
     d = {"kind": c["kind"]}
     if c["kind"] == "combine":
         d["operands"] = len(c["rs"])
+    if c["kind"] == "maybe_max":
+        d["children_with_resources"] = sum(1 for a in c["ch"] if a is not None)
     if c["kind"] == "update":
         d["update_free_keys"] = sum(1 for k, _ in c["kw"] if k not in ALL_KEYS)
     return d
@@ -462,7 +494,7 @@ def shrink(c):
         for j in range(len(c["rs"])):
             out.append({"kind": k, "rs": c["rs"][:j] + c["rs"][j + 1:]})
     targets = {"new": ["a"], "combine": [], "update": ["r"], "with_defaults": ["r", "d"], "maybe": ["r", "d"],
-               "dict": ["r"], "slurm": ["r"], "from_dict": []}[k]
+               "dict": ["r"], "slurm": ["r"], "from_dict": [], "maybe_max": []}[k]
     for t in targets:
         a = c[t]
         if a is None:
@@ -477,6 +509,9 @@ def shrink(c):
             for f in FIELDS:
                 if a[f] is not None:
                     out.append({"kind": k, "rs": c["rs"][:j] + [{**a, f: None}] + c["rs"][j + 1:]})
+    if k == "maybe_max":
+        for j in range(len(c["ch"])):
+            out.append({**c, "ch": c["ch"][:j] + c["ch"][j + 1:]})
     if k == "update":
         for j in range(len(c["kw"])):
             out.append({**c, "kw": c["kw"][:j] + c["kw"][j + 1:]})
